@@ -64,6 +64,7 @@ func VResetGlobals() {
 	info = redisStats{run_id: rid}
 	signals = 0
 	testPort = 50000
+	vPort = 6400
 	vrand.Reseed(1)
 	verifrt.SetNow(verifrt.Epoch)
 }
